@@ -40,6 +40,7 @@ def _close(fi):
 
 def check_file(ctx, data, bs, scratch, roundtrip=True, tag="", other=None):
     from tola.assembly.assembly import Assembly
+    from tola.assembly.fragment import Fragment
     from tola.fasta.index import FastaIndex, index_fasta_file
     from tola.fasta.stream import FastaStream
 
@@ -123,6 +124,18 @@ def check_file(ctx, data, bs, scratch, roundtrip=True, tag="", other=None):
                 if g != rec["seq"][a - 1 : b]:
                     ctx.violation("random-access", f"{rec['name']}:{a}-{b} gave {g[:80]!r} expected {rec['seq'][a - 1:b][:80]!r} rpl={rec['rpl']} bpl={rec['bpl']}", case)
                     return
+            # the chunked route used by the stream writer, for every orientation a row can have
+            for a, b in pairs[:: max(1, len(pairs) // 12)]:
+                for strand in (1, 0, -1):
+                    chunks = list(fi.get_sequence_iter(Fragment(rec["name"], a, b, strand)))  # all fetched, then read
+                    if len(chunks) > 1:
+                        ctx.count("random-access:chunked:several-chunks-held")
+                    g = b"".join(c.getvalue() for c in chunks)
+                    want_g = rec["seq"][a - 1 : b] if strand != -1 else fasta_ref.revcomp(rec["seq"][a - 1 : b])
+                    ctx.count(f"random-access:chunked:strand{strand}")
+                    if g != want_g:
+                        ctx.violation(f"random-access-chunked:strand{strand}", f"{rec['name']}:{a}-{b} strand {strand} gave {g[:80]!r} expected {want_g[:80]!r}", case)
+                        return
             if fi.get_fasta_seq(rec["name"]).sequence != rec["seq"]:
                 ctx.violation("get-fasta-seq", f"whole record {rec['name']} differs", case)
                 return
@@ -226,6 +239,7 @@ def gates(c, tier):
         "class:run-longer-than-buffer": 100,
         "random-access:records-exhaustive": 500,
         "random-access:intervals": 50000,
+        "random-access:chunked:strand0": 5000,
         "cache-roundtrip": 300,
         "cache-replaced-file-equal-mtime": 200,
     }
